@@ -560,9 +560,11 @@ class UnionProvider(LoaderProvider, DumperProvider):
         literal_cases: Sequence[Any],
     ) -> Dumper:
         def union_dumper_with_literal(data):
-            if data in literal_cases:
-                return literal_dumper(data)
-            return dumper_type_dispatcher.dispatch(type(data))(data)
+            data_type = type(data)
+            for literal_case in literal_cases:
+                if type(literal_case) is data_type and literal_case == data:
+                    return literal_dumper(data)
+            return dumper_type_dispatcher.dispatch(data_type)(data)
 
         return union_dumper_with_literal
 
